@@ -181,7 +181,7 @@ func checkC15(c *Ctx) {
 	// ---- export-own-state ------------------------------------------------------------------------
 	// what is exported is the module's own store: an export that consults staking or bank state (is the validator
 	// still bonded? does the account still exist?) leaves out entries the running chain still holds
-	r.Min("C15.export-own-state", 3)
+	r.Min("C15.export-own-state", 4)
 	nForeign := 0
 	for _, fn := range sortedFuncs(expReach) {
 		if p.L.IsGenerated(fn.Pos()) || !p.IsModule(fn) {
@@ -313,6 +313,48 @@ func checkC15(c *Ctx) {
 	}
 	if nAlias == 0 {
 		r.Ok("C15.export-own-state", "loopvar", "-", "no address of a loop variable is kept in export / import code")
+	}
+	// filtering a slice in place (s[:0] + append) overwrites the backing array of s; when s is a field of something
+	// that is exported as well, the exported value is corrupted
+	nInPlace := 0
+	for _, f := range sortedFuncs(expReach) {
+		if p.L.IsGenerated(f.Pos()) || !p.IsModule(f) {
+			continue
+		}
+		ana.Instrs(f, func(in ssa.Instruction) {
+			sl, ok := in.(*ssa.Slice)
+			if !ok || sl.Low != nil || sl.High == nil || !isConstVal(sl.High, "0") {
+				return
+			}
+			if _, isField := rootAndPath(sl.X); isField == "" {
+				return
+			}
+			appended := false
+			var follow func(v ssa.Value, depth int)
+			follow = func(v ssa.Value, depth int) {
+				if depth > 4 {
+					return
+				}
+				for _, ref := range *v.Referrers() {
+					switch x := ref.(type) {
+					case *ssa.Call:
+						if b, ok := x.Call.Value.(*ssa.Builtin); ok && b.Name() == "append" && len(x.Call.Args) > 0 && x.Call.Args[0] == v {
+							appended = true
+						}
+					case *ssa.Phi:
+						follow(x, depth+1)
+					}
+				}
+			}
+			follow(sl, 0)
+			if appended {
+				nInPlace++
+				r.Bad("C15.export-own-state", "in-place:"+fname(f), c.pos(sl), "a slice held in a field is filtered in place (field[:0] followed by append): the field's backing array is overwritten, so the exported value of that field is corrupted (entries duplicated / dropped)")
+			}
+		})
+	}
+	if nInPlace == 0 {
+		r.Ok("C15.export-own-state", "in-place", "-", "no field-held slice is filtered in place in export code")
 	}
 
 	// ---- faithful-import -------------------------------------------------------------------------
@@ -637,7 +679,6 @@ func (c *Ctx) checkUnconditionalImport(imp *ssa.Function, minN int) {
 		r.Undecided("C15.faithful-import", "unconditional:"+fname(imp), p.Pos(imp.Pos()), sprintf("only %d import writes recognised, expected at least %d", n, minN))
 	}
 }
-
 
 // reachFromTo2: to is reachable from a successor of from (from == to asks whether the block lies on a cycle).
 func reachFromTo2(from, to *ssa.BasicBlock) bool {
